@@ -26,6 +26,10 @@ func propC12(w *World, r *Report) {
 	}
 	RunBigEndian(w, r, func(p string) bool { return pk[p] })
 	RunWireSizes(w, r)
+	for _, a := range boundsAssumptions {
+		r.Assumes(a)
+	}
+	RunLosslessFor(w, r, "C12", newBoundsRun(w))
 	r.Floor("fieldpair", 70)
 	r.Floor("bitpair", 12)
 	r.Floor("bigendian/read", 15)
